@@ -162,6 +162,9 @@ def plan(seed, tier="quick", index=0):
     if stratum == "concurrent":
         return _plan_concurrent(seed, rng, network)
     nframes = rng.choice([1, 1, 2, 3])
+    long_run = stratum == "clean" and rng.random() < 0.04
+    if long_run:
+        nframes = rng.choice([17, 33, 65, 130, 257])  # long-lived connection: counters, thresholds, wrap-arounds
     fr = []
     for _ in range(nframes):
         if stratum == "codec" or rng.random() < 0.15:
@@ -178,7 +181,11 @@ def plan(seed, tier="quick", index=0):
                 size = rng.randrange(0, 70001)
             inside = rng.random() < 0.8
             cmd = rng.choice(COMMAND_TABLE) if inside else rng.choice(["sendheaders", "feefilter", "wtxidrelay", "x", "twelve_chars", ""])
+            if long_run:
+                size = rng.choice([0, 0, 8, 36, 100])
             fr.append({"cmd": cmd, "payload_seed": rng.getrandbits(32), "size": size, "built": "lib" if inside and rng.random() < 0.8 else "ref"})
+            if rng.random() < 0.2:
+                fr[-1]["pattern"] = rng.choice(["zeros", "ff", "fd-markers", "magic", "embedded-frame"])
     sc = {
         "property": PROPERTY,
         "seed": seed,
@@ -347,12 +354,29 @@ def _execute_concurrent(sc, tape, keep_events):
 
 
 # --------------------------------------------------------------------------- building
-def _payload_bytes(seed, size):
+def _payload_bytes(seed, size, pattern=None, magic=b""):
+    """Pseudo-random payload, or one of the byte patterns that mean something to a parser:
+    zeros, 0xff, CompactSize markers, the network magic, a complete frame inside the payload."""
+    if pattern == "zeros":
+        return bytes(size)
+    if pattern == "ff":
+        return b"\xff" * size
+    if pattern == "fd-markers":
+        return (b"\xfd\xfe\xff\x00" * (size // 4 + 1))[:size]
     out = bytearray()
     c = 0
     while len(out) < size:
         out += hashlib.sha256(b"%d/%d" % (seed, c)).digest()
         c += 1
+    out = out[:size]
+    if pattern == "magic" and size >= 4:
+        for pos in (0, size // 2, size - 4):
+            out[pos : pos + 4] = magic[:4]
+    if pattern == "embedded-frame" and size >= 24:
+        inner = frames.frame(magic, "verack", b"")
+        out[:24] = inner
+        if size >= 56:
+            out[size - 24 :] = inner
     return bytes(out[:size])
 
 
@@ -470,7 +494,7 @@ def execute(scenario, tape=None, keep_events=False):
                 if exp.get("timestamp") == "CLOCK":
                     exp["timestamp"] = int(scenario["epoch"] + sched.now)
             else:
-                payload = _payload_bytes(fd["payload_seed"], fd["size"])
+                payload = _payload_bytes(fd["payload_seed"], fd["size"], fd.get("pattern"), magic)
             if fd["built"] == "lib":
                 try:
                     fb = p2p.msg_ser(magic, fd["cmd"].encode(), payload)
